@@ -24,9 +24,30 @@ from .desugar import _loc, desugar
 from .pysrc import FuncInfo, dotted
 
 
+TYPES = None  # optional sa.types.Types instance: lets calls on typed receivers (`txBody.add_p()`) resolve to their method
+
+
+def use_types(t):
+    global TYPES
+    TYPES = t
+
+
 def resolve_callee(prog, f, call, local_defs=None):
     """FuncInfo or ast.FunctionDef of the single repository function `call` invokes, with skip_self flag; None otherwise."""
     fn = call.func
+    if TYPES is not None and isinstance(fn, ast.Attribute) and dotted(fn.value) and dotted(fn.value).split(".")[0] not in ("cls",) \
+            and dotted(fn.value) not in ("self",) and isinstance(f, FuncInfo):
+        from .types import FCtx
+
+        try:
+            ts = TYPES.expr(fn.value, FCtx(f))
+        except Exception:  # noqa: BLE001
+            ts = ()
+        insts = {a[1] for a in ts if a[0] == "inst"}
+        if len(insts) == 1 and all(a[0] == "inst" for a in ts):
+            g = prog.lookup(next(iter(insts)), fn.attr)
+            if g is not None and g.kind == "method" and g.module.name.startswith("pptx") and not g.node.decorator_list:
+                return g, True
     if isinstance(fn, ast.Name):
         if local_defs and fn.id in local_defs:
             return local_defs[fn.id], False
